@@ -14,7 +14,6 @@ import (
 
 func init() { register("C40", "other", c40) }
 
-
 // C40 Magic-block lookup returns the block in force for a round.
 //
 // Decided: the representation invariant of roundStartingStorage (`rounds` strictly
